@@ -22,7 +22,7 @@ P.assume("B1/B2 (field boundary) are defined by closure: B(64); B(p) & header fi
 P.assume("precondition: both buffers are END-terminated serialisations (every field boundary carries a complete header inside the buffer) -- established by reb_simulation_save_to_stream, which always appends END + trailer")
 P.assume("output_option in {0,2}: the two modes the library itself uses (archive append, comparison); the printing modes "
          "1 and 3 are not under contract")
-P.not_decided += ["index walk over arbitrary multi-blob histories (reader side) and cadence bookkeeping: not yet under contract",
+P.not_decided += ["index walk of the reader over arbitrary multi-blob histories: decided for the open path under truncation in C07 (archive_open), not for the random-access loader reb_simulation_create_from_simulationarchive_with_messages beyond the overlay of one delta on blob 0 (C06_overlay); cadence bookkeeping: per heartbeat call (C06_cadence), not as an induction over the run",
                   "int32 overflow of blob offsets for snapshots > 2 GiB"]
 
 HDR = 16
